@@ -108,6 +108,22 @@ def run_part(prop, seed, budget):
                 r = _out(lambda: deserialize(B, d, **kw))
                 got = sorted(e["loc"] for e in r[1]) if r[0] == "invalid" else r
                 if got != sorted(want): _fail(failures, "validator-naming-its-field-with-get_alias", "crash:" + r[1].split(":")[0] if r[0] == "crash" else "validator-error-not-located-at-the-alias", datum=d, path=path, got=got, expected=want)
+    if prop in ("C03", "C17"):
+        # examples (lists, possibly of dicts) in a schema used inside Annotated: the annotated type is a key of the caches
+        xsrc = ["from dataclasses import dataclass, field", "from typing import *", "from apischema import schema", "", "@dataclass", f"class Xm{i}:",
+                "    x: Annotated[int, schema(examples=[1, 2], description='d')] = 0", "    m: Annotated[Dict[str, int], schema(examples=[{'a': 1}])] = field(default_factory=dict)",
+                "    l: List[Annotated[str, schema(examples=['s'])]] = field(default_factory=list)", ""]
+        Xm = vars(build_module(xsrc, f"corners7ex2_{seed}"))[f"Xm{i}"]
+        for nm, fn_ in (("deserialize", lambda: deserialize(Xm, {"x": 1, "m": {"k": 2}, "l": ["a"]})), ("serialize", lambda: serialize(Xm, Xm(1, {"k": 2}, ["a"]))),
+                        ("deserialization_schema", lambda: deserialization_schema(Xm)), ("serialization_schema", lambda: serialization_schema(Xm))):
+            n += 1; distinct.add(case_hash("c7-examples-annotated", nm)); hist["examples-inside-annotated"] += 1
+            r = _out(fn_)
+            if r[0] != "ok": _fail(failures, "examples-inside-annotated", "crash:" + r[1].split(":")[0] if r[0] == "crash" else "rejected", which=nm, got=r)
+            elif nm == "deserialization_schema" and prop == "C17":
+                import jsonschema as _js
+                try: _js.Draft202012Validator.check_schema(r[1])
+                except Exception as e: _fail(failures, "examples-inside-annotated", "schema-invalid-against-its-meta-schema", real=r[1], error=str(e)[:200])
+                if r[1]["properties"]["x"].get("examples") != [1, 2]: _fail(failures, "examples-inside-annotated", "examples-lost", real=r[1])
     if prop in ("C03", "C10"):
         # a validator taking init variables runs iff they were deserialized without error (and is never called without them)
         W = ns[f"Window{i}"]
